@@ -420,9 +420,10 @@ func (fr *Frame) oblige(kind, detail, cond string, clause string) {
 		}
 		return
 	}
-	if c := x.w.contracts[x.fnKey]; c != nil && c.Lenient && kind != "guard" && kind != "inv-init" && kind != "inv-pres" && !(kind == "post" && strings.HasPrefix(detail, "check:")) {
+	if c := x.w.contracts[x.fnKey]; c != nil && c.Lenient && kind != "guard" && kind != "inv-init" && kind != "inv-pres" && kind != "post" {
 		// lenient contracts claim their call-site guards and checks only (and prove the loop
-		// invariants those rest on); safety conditions and callee preconditions are assumed
+		// invariants those rest on, and any ensures clause, which callers rely on); safety
+		// conditions, frames and callee preconditions are assumed
 		if kind != "post" && kind != "frame" {
 			x.em.Assert(sImp(fr.curReach, cond))
 		}
